@@ -304,7 +304,7 @@ def main(argv=None):
     harness_errors = []
     known = load_known(pid)
     new_count = [0]
-    stop = lambda: (time.monotonic() - t0) > wall_budget or new_count[0] >= 5 or len(harness_errors) >= 5
+    stop = lambda: (time.monotonic() - t0) > wall_budget or new_count[0] >= 5 or len(harness_errors) >= 12
     nproc = plan.get("nproc")
     for idx0, r in parallel_map(items(), nproc=nproc, timeout=timeout * (1 + batch_n / 4.0), stop=stop):
         if r.status != "ok":
@@ -379,10 +379,14 @@ def main(argv=None):
     wall = time.monotonic() - t0
     print("SUMMARY property=%s cases=%d/%d violations=%d known=%d harness_errors=%d wall=%.1fs" % (
         pid, len(results), ncases + len(directed), new_viol, len(known_hit), len(harness_errors), wall))
-    if harness_errors and rc == 0:
+    if harness_errors:
         for idx, st, val in harness_errors[:3]:
-            print("HARNESS-ERROR case=%s status=%s %s" % (idx, st, (val or "")[-1500:]))
-        return 2
+            print("HARNESS-%s case=%s status=%s %s" % ("ERROR" if rc == 0 else "WARNING", idx, st, (val or "")[-1500:]))
+        # isolated harness failures (a case that timed out under load, an unforeseen
+        # shape of a generated world) are reported and counted in the evidence but do not
+        # void the verdict of the other cases; systematic ones do
+        if rc == 0 and len(harness_errors) > max(2, (len(results) + len(harness_errors)) // 10):
+            return 2
     if args.selftest and mismatches:
         return 2
     return rc
